@@ -276,6 +276,17 @@ fn main() {
         real_dirs.push(base);
     }
 
+    // history independence: a call for ANOTHER file (with its own sourceMappingURL comment, comments and literals) is made
+    // first on this thread; nothing of it may leak into the call under test (the bindings keep one Rewriter per process)
+    {
+        let decoy_map = "{\"version\":3,\"sources\":[\"verif-decoy.ts\"],\"names\":[],\"mappings\":\"AAAA;AACA\"}";
+        use base64::Engine as _;
+        let decoy = format!("/* decoy */ function verifDecoy(p, q) {{ return p + q + 'decoy literal value'; }}\n//# sourceMappingURL=data:application/json;base64,{}", base64::engine::general_purpose::STANDARD.encode(decoy_map));
+        let _ = std::panic::catch_unwind(std::panic::AssertUnwindSafe(|| {
+            let _ = rewriter::rewrite_js(decoy, "verif-decoy.js", &config, &MemReader { files: Default::default() })
+                .map(|o| rewriter::print_js(&o.code, &o.source_map, &o.original_source_map, &config).into_owned());
+        }));
+    }
     let prev = std::panic::take_hook();
     std::panic::set_hook(Box::new(|_| {}));
     let result = std::panic::catch_unwind(std::panic::AssertUnwindSafe(|| {
